@@ -118,7 +118,7 @@ def in_exact_domain(ws):
 
 
 DEC10 = [k / 10 for k in range(1, 10)]
-WSTYLES = ["d4", "d4", "dec10", "dec10", "dec100", "const", "two", "rand", "rand", "randlog", "nearint", "exact"]
+WSTYLES = ["d4", "d4", "dec10", "dec10", "dec100", "const", "two", "rand", "rand", "randlog", "nearint", "neartie", "neartie", "exact"]
 
 
 def weigh_f(rng, g, style=None):
@@ -132,6 +132,10 @@ def weigh_f(rng, g, style=None):
     elif style == "two": a, b = rng.choice([(0.1, 0.3), (0.1, 0.2), (0.7, 0.1), (1.1, 2.2), (0.3, 0.6)]); ws = [rng.choice([a, b]) for _ in range(m)]
     elif style == "rand": ws = [rng.uniform(1e-3, 1e3) for _ in range(m)]
     elif style == "randlog": ws = [10 ** rng.uniform(-3, 3) for _ in range(m)]
+    elif style == "neartie":        # all weights within a few 1e-8..1e-7 (relative) of one value: differences above the 1e-9 tolerance,
+        b = rng.choice([0.6667, 1e-3, 2e-3, 0.1, 3.3, 123.456, 999.0]); d = rng.choice([1e-8, 3e-8, 1e-7, 1e-10 / b])   # below single precision
+        js = list(range(m)); rng.shuffle(js)
+        ws = [b * (1 + j * d) if rng.random() < 0.8 else 2 * b * (1 + j * d) for j in js]
     elif style == "nearint": ws = [rng.randint(1, 5) + rng.choice([0, 0, 1e-9, -1e-9, 2 ** -40]) for _ in range(m)]
     else: pool = [0.25, 0.5, 0.75, 1.0, 1.5, 2.0, 3.0]; ws = [rng.choice(pool) for _ in range(m)]       # exact domain
     ws = [min(1e3, max(1e-3, w)) for w in ws]
